@@ -31,7 +31,10 @@ Env == <<
   [n |-> "LL",  kind |-> "type", ty |-> Tup(<<TNumber, Ref("LL")>>, <<>>)],
   \* named tuples of different lengths whose intersection is inhabited (named types get their atoms when first referenced)
   [n |-> "Tp",  kind |-> "type", ty |-> Tup(<<TString, TNumber>>, <<>>)],
-  [n |-> "Tq",  kind |-> "type", ty |-> Tup(<<TString>>, <<TNumber>>)]
+  [n |-> "Tq",  kind |-> "type", ty |-> Tup(<<TString>>, <<TNumber>>)],
+  \* recursion through the entries of a Map / the members of a Set
+  [n |-> "MR",  kind |-> "type", ty |-> MapT(TString, Uni(<<TNumber, Ref("MR")>>))],
+  [n |-> "SR",  kind |-> "type", ty |-> SetT(Uni(<<TString, Ref("SR")>>))]
 >>
 
 Leaves == <<TNull, TBoolean, LB(TRUE), TNumber, LN("1"), LN("2"), TString, LS("a"), LS("b")>>
@@ -74,6 +77,16 @@ Depth1 ==
   \cup {Obj(<<>>, <<Ix(TString, Uni(<<TString, TNumber>>))>>),
         Uni(<<Obj(<<>>, <<Ix(TString, TString)>>), Obj(<<>>, <<Ix(TString, TNumber)>>)>>),
         Uni(<<Obj(<<Prop("a", TString, TRUE)>>, <<Ix(TString, TString)>>), Obj(<<>>, <<Ix(TString, TNumber)>>)>>)}
+  \* the tags beyond JSON: bigint and Date (no proper subtypes), typed arrays (told apart by constructor), Map and Set (decision
+  \* diagrams over atoms <key type, value type> / <member type>), next to the JSON tags they must not be confused with
+  \cup {Prim("bigint"), Prim("Date"), TaT("Uint8Array"), TaT("Int16Array"),
+        MapT(TString, TNumber), MapT(TString, Uni(<<TNumber, TString>>)), MapT(LS("a"), TNumber), MapT(TString, LN("1")), MapT(TNumber, TString),
+        SetT(TString), SetT(LS("a")), SetT(Uni(<<TString, TNumber>>)), SetT(TNever),
+        Uni(<<MapT(TString, TNumber), O(<<Prop("a", TString, FALSE)>>)>>), Uni(<<SetT(TString), Arr(TString)>>),
+        Uni(<<MapT(TString, TNumber), MapT(TString, TString)>>), Uni(<<SetT(TString), SetT(TNumber)>>),
+        Uni(<<Prim("Date"), TNull>>), Uni(<<TaT("Uint8Array"), TaT("Int16Array")>>), Uni(<<Prim("bigint"), TNumber>>),
+        Inter(<<MapT(TString, Uni(<<TNumber, TString>>)), MapT(TString, TNumber)>>), Inter(<<SetT(Uni(<<TString, TNumber>>)), SetT(TString)>>),
+        O(<<Prop("m", MapT(TString, TNumber), FALSE), Prop("s", SetT(TString), TRUE)>>), Arr(Prim("Date")), Tup(<<Prim("bigint")>>, <<TaT("Uint8Array")>>)}
   \* tuples and arrays whose rest / element is unknown
   \cup {Tup(<<TString>>, <<Prim("unknown")>>), Tup(<<TString, TNumber>>, <<Prim("unknown")>>), Arr(Prim("unknown")),
         Uni(<<Tup(<<TString>>, <<Prim("unknown")>>), TNull>>)}
